@@ -61,7 +61,11 @@ def _tupled(t):
 
 def run_case(case, acc):
     rabin = bool(case['rabin'])
-    sy = synth.Synth(case)
+    # every other game is examined in an automaton with a history (solved
+    # before under another ownership and in the opposite mode)
+    reuse = bool(int(stable_hash({k: v for k, v in case.items()
+                                  if k not in ('init', 'deep')})[:4], 16) % 2)
+    sy = synth.Synth(case, reuse=reuse)
     aut, gm = sy.aut, sy.gm
     W = sy.reference_region()
     combos = synth.init_combos(case)
@@ -104,7 +108,7 @@ def run_case(case, acc):
     m0 = synth.memory_init(case, rabin)
     mem = synth.memory_vars(rabin)
     for q, ei, si in realizable:
-        s2 = synth.Synth(case, q, ei, si)
+        s2 = synth.Synth(case, q, ei, si, reuse=reuse)
         sub = dict(case, init=[q, ei, si])
         acc.count('constructions')
         try:
